@@ -9,7 +9,7 @@ Record rpc := mkRpc { p_rid : Z; p_kind : Z; p_pod : Z; p_cid : Z; p_rej : bool 
 Record sv := mkSv {
   v_w : world; v_disk : store; v_mem : store; v_pend : list Z; v_rpcs : list rpc;
   v_gone : list Z; v_exited : list Z; v_apierr : bool;
-  v_gc : option store;             (* store when the running GC pass began *)
+  v_gc : option (store * list Z * list Z * bool);   (* store and API state when the running GC pass began *)
   v_ok : bool; v_why : Z }.
 
 Definition sfail (v : sv) (why : Z) : sv :=
@@ -18,7 +18,7 @@ Definition with_w (v : sv) (w : world) := mkSv w (v_disk v) (v_mem v) (v_pend v)
 Definition with_store (v : sv) (d m : store) := mkSv (v_w v) d m (v_pend v) (v_rpcs v) (v_gone v) (v_exited v) (v_apierr v) (v_gc v) (v_ok v) (v_why v).
 Definition with_rp (v : sv) (pend : list Z) (rpcs : list rpc) := mkSv (v_w v) (v_disk v) (v_mem v) pend rpcs (v_gone v) (v_exited v) (v_apierr v) (v_gc v) (v_ok v) (v_why v).
 Definition with_api (v : sv) (g e : list Z) (b : bool) := mkSv (v_w v) (v_disk v) (v_mem v) (v_pend v) (v_rpcs v) g e b (v_gc v) (v_ok v) (v_why v).
-Definition with_gc (v : sv) (g : option store) := mkSv (v_w v) (v_disk v) (v_mem v) (v_pend v) (v_rpcs v) (v_gone v) (v_exited v) (v_apierr v) g (v_ok v) (v_why v).
+Definition with_gc (v : sv) (g : option (store * list Z * list Z * bool)) := mkSv (v_w v) (v_disk v) (v_mem v) (v_pend v) (v_rpcs v) (v_gone v) (v_exited v) (v_apierr v) g (v_ok v) (v_why v).
 Definition sreq (v : sv) (b : bool) (why : Z) : sv := if b then v else sfail v why.
 
 (* the unfinished pool request of a pod *)
@@ -60,6 +60,15 @@ Fixpoint restart_slots (c : cfg) (d : store) (winners : list Z) (now : Z) (pre :
            load_slot (if trunk then 1 else 0) (c_on4 c) (c_on6 c) (c_cap c) (c_batch c) now eni trunk prim v4 v6 (owners_of d winners eni)
        | None => with_now (init_slot 0 (c_on4 c) (c_on6 c) (c_cap c) (c_batch c)) now
        end) :: restart_slots c d winners now pre (i + 1) t
+  end.
+
+(* the pool request the handler of RPC rid is about to make for pod (first attempt record before its reply) *)
+Fixpoint next_attempt_of (pod rid : Z) (rest : list (list Z)) : option Z :=
+  match rest with
+  | [] => None
+  | (41 :: r :: _) :: t => if r =? rid then None else next_attempt_of pod rid t
+  | (20 :: _ :: prid :: p :: _) :: t => if p =? pod then Some prid else next_attempt_of pod rid t
+  | _ :: t => next_attempt_of pod rid t
   end.
 
 Definition srec_step (c : cfg) (rest : list (list Z)) (v : sv) (r : list Z) : sv :=
@@ -130,22 +139,29 @@ Definition srec_step (c : cfg) (rest : list (list Z)) (v : sv) (r : list Z) : sv
         | _ => sfail v 424 end
       else pool_rec c rest v r
   | [2; rid] =>
-      (* the caller's context of an RPC is cancelled: its pool request, if any, is cancelled *)
+      (* the caller's context of an RPC is cancelled: its pool request, if any, is cancelled; when the context was
+         cancelled before the daemon started on the request, the pool request it is about to make is born cancelled *)
       match List.find (fun x => p_rid x =? rid) (v_rpcs v) with
       | Some x => match find_req_pod (w_slots (v_w v)) (p_pod x) with
                   | Some prid => if p_rej x then v else pool_rec c rest v [2; prid]
-                  | None => v end
+                  | None => if p_rej x then v else
+                            match next_attempt_of (p_pod x) rid rest with
+                            | Some prid => pool_rec c rest v [1; prid; p_pod x; 0; 1]
+                            | None => v end
+                  end
       | None => v end
-  | [34] => with_gc v (Some (v_mem v))
+  | [34] => with_gc v (Some (v_mem v, v_gone v, v_exited v, v_apierr v))
   | [43; code] =>
       match v_gc v with
       | None => sfail v 430
-      | Some s0 =>
+      | Some (s0, gone0, exited0, apierr0) =>
           (* the records of the vanished pods (API says: does not exist) are gone, the others are kept;
-             the store listing order is Go's map order, which does not matter when no cleanup fails *)
-          let live p := negb (memz p (v_gone v)) && negb (memz p (v_exited v)) in
-          let api p := if v_apierr v then None else Some (negb (memz p (v_gone v))) in
-          let failing p := memz (- p) (v_exited v) && match sget p s0 with Some _ => true | None => false end in
+             the store listing order is Go's map order, which does not matter when no cleanup fails.
+             The API's answers are those of the moment the pass asked: a pod that comes back under its name
+             while the pass is running (SGCRace) was answered for before it came back *)
+          let live p := negb (memz p gone0) && negb (memz p exited0) in
+          let api p := if apierr0 then None else Some (negb (memz p gone0)) in
+          let failing p := memz (- p) exited0 && match sget p s0 with Some _ => true | None => false end in
           (* every record whose pod vanished and whose cleanup works is collected, whatever happens to the others *)
           let '(removed, _) := gc_pass live api (fun _ => true) (filter (fun p => negb (failing p)) (map fst s0)) in
           let anyfail := existsb (fun p => failing p && negb (live p) && match api p with Some false => true | _ => false end) (map fst s0) in
@@ -238,10 +254,14 @@ Definition so_step (prop : Z) (ns : nat) (snaps : list (list ssnap)) (o : so) (r
         (* store: op(rid) pod(pod) cid(cid) eni a4 a6 *)
         match rest with
         | eni :: a4 :: a6 :: _ =>
-            if rid =? 2 then so_upd o (sput pod (mkRec cid eni a4 a6) (o_store o)) (o_ack o) (o_rpcs o) (o_gonep o) (o_apie o) (o_ingc o) (o_failed o) (o_restarted o)
+            if rid =? 2 then
+              (* a record written while a GC pass is running is flagged (count -3000000): the pass must not collect it *)
+              so_upd o (sput pod (mkRec cid eni a4 a6) (o_store o)) (o_ack o) (o_rpcs o)
+                     (if o_ingc o then (pod, -3000000) :: o_gonep o else o_gonep o) (o_apie o) (o_ingc o) (o_failed o) (o_restarted o)
             else if rid =? 4 then
               let o1 := if (prop =? 9) && o_ingc o
-                        then so_req o (negb (o_apie o) && existsb (fun g => fst g =? pod) (o_gonep o)) 901   (* only a vanished pod, and only on the API's word *)
+                        then so_req (so_req o (negb (o_apie o) && existsb (fun g => (fst g =? pod) && negb (snd g <? -2500000)) (o_gonep o)) 901)   (* only a vanished pod, and only on the API's word *)
+                                    (negb (existsb (fun g => (fst g =? pod) && (snd g <? -2500000)) (o_gonep o))) 903   (* never the record of a request served while the pass runs *)
                         else o in
               (* a record collected by the GC pass ends the pod's hold *)
               so_upd o1 (sdel pod (o_store o1)) (if o_ingc o1 then sdel pod (o_ack o1) else o_ack o1) (o_rpcs o1) (o_gonep o1) (o_apie o1) (o_ingc o1) (o_failed o1) (o_restarted o1)
@@ -303,14 +323,22 @@ Definition so_step (prop : Z) (ns : nat) (snaps : list (list ssnap)) (o : so) (r
   | [34] => so_upd o (o_store o) (o_ack o) (o_rpcs o) (o_gonep o) (o_apie o) true (o_failed o) (o_restarted o)
   | [43; code] =>
       (* one record's cleanup failure must not stop the others: a pass counts whenever the API could be asked *)
-      let gp := if negb (o_apie o) then map (fun g => (fst g, snd g + 1)) (o_gonep o) else o_gonep o in
+      let gp0 := filter (fun g => negb (snd g <? -1500000)) (o_gonep o) in    (* flags of the pass that ends here *)
+      let gp := if negb (o_apie o) then map (fun g => (fst g, snd g + 1)) gp0 else gp0 in
       let o1 := so_upd o (o_store o) (o_ack o) (o_rpcs o) gp (o_apie o) false (o_failed o) (o_restarted o) in
       if prop =? 9 then
         (* after two passes that could ask the API, the record of a vanished pod is gone *)
         so_req o1 (forallb (fun g => (snd g <? 2) || match sget (fst g) (o_store o1) with None => true | Some _ => false end) gp) 902
       else o1
   | [35; p] => so_upd o (o_store o) (o_ack o) (o_rpcs o) (if existsb (fun g => fst g =? p) (o_gonep o) then o_gonep o else (p, 0) :: o_gonep o) (o_apie o) (o_ingc o) (o_failed o) (o_restarted o)
-  | [44; p] => so_upd o (o_store o) (o_ack o) (o_rpcs o) (filter (fun g => negb (fst g =? p)) (o_gonep o)) (o_apie o) (o_ingc o) (o_failed o) (o_restarted o)   (* a new instance of the name exists *)
+  | [44; p] =>
+      (* a new instance of the name exists.  During a GC pass the API may already have said "gone" for the old instance:
+         the entry stays, flagged (count -2000000), until the pass ends *)
+      so_upd o (o_store o) (o_ack o) (o_rpcs o)
+             (if o_ingc o && existsb (fun g => fst g =? p) (o_gonep o)
+              then (p, -2000000) :: filter (fun g => negb (fst g =? p)) (o_gonep o)
+              else filter (fun g => negb (fst g =? p)) (o_gonep o))
+             (o_apie o) (o_ingc o) (o_failed o) (o_restarted o)
   | [40; p; b] =>
       (* a pod whose release fails at the interface is exempt from the two-pass clause (it can never be collected) *)
       so_upd o (o_store o) (o_ack o) (o_rpcs o) ((p, -1000000) :: filter (fun g => negb (fst g =? p)) (o_gonep o)) (o_apie o) (o_ingc o) (o_failed o) (o_restarted o)
